@@ -26,10 +26,28 @@ def tupleTyTableOK (env : Env) (F : GFile) (t : Ty) : Bool :=
        | none => false)
   | _ => true
 
+/-- the emitted file declares the interface of an admitted enum (not under the name `any`) and the struct of every
+    variant with the Go types of the payload and with the methods of the interface (so that a variant value is
+    assignable where the enum is expected) -/
+def enumTyTableOK (env : Env) (F : GFile) (n : String) : Bool :=
+  let c := Goml.GoTyping.mkTCtx F
+  match env.getEnum n with
+  | some d =>
+    gid n != "any" &&
+    (match c.ifaces.find? (·.1 == gid n) with
+     | some (_, ms) =>
+       d.variants.all fun v =>
+         match c.findStruct (variantGoName env n v.1) with
+         | some (fs, methods) => Goml.GoTyping.fieldsBeqG fs (variantFields 0 v.2) && ms.all methods.contains
+         | none => false
+     | none => false)
+  | none => false
+
 /-- file-level hypothesis of the typing half of T2 (decidable, evaluated on the model's own output): the struct
     declarations of the emitted file carry the Go types of the fields -/
 def typedTablesOK (env : Env) (file : AFile) (n : Nat) : Bool :=
   let F := (goFilePreSt env file n).1
-  (goodStructs env).all (structTyTableOK env F) && (collectRuntimeTypes file).tuples.all (tupleTyTableOK env F)
+  (goodStructs env).all (structTyTableOK env F) && (collectRuntimeTypes file).tuples.all (tupleTyTableOK env F) &&
+  (goodEnums env).all (enumTyTableOK env F)
 
 end Goml.GoFrag
